@@ -848,8 +848,45 @@ impl<'a> Gen<'a> {
                 self.line("end");
                 self.line("ext_p(\"dead\")");
             }
-            28 | 29 if self.f.refactor && self.rng.chance(1, 3) => {
-                match self.rng.below(3) {
+            28 | 29 if self.f.refactor && self.rng.chance(1, 2) => {
+                match self.rng.below(6) {
+                    3 => {
+                        // a local function that mentions itself without calling itself directly (callback, return)
+                        self.line("local function sched(f, n) if n > 0 then return f(n) end return n end");
+                        self.line("local function tick(n) ext_p(\"tick\", n) return sched(tick, n - 1) end");
+                        self.line("local function again(k) if k > 1 then return again end return k end");
+                        self.line("ext_p(tick(2), again(1), type(again(2)))");
+                    }
+                    4 => {
+                        // a multi-value or unbalanced initialiser followed directly by a declaration without values
+                        self.line("local function two() return ext_n(1), ext_n(2) end");
+                        match self.rng.below(3) {
+                            0 => {
+                                self.line("local okv, msg = two()");
+                                self.line("local res");
+                                self.line("ext_p(okv, msg, res)");
+                            }
+                            1 => {
+                                self.line("local idv = 1, ext_n(3)");
+                                self.line("local owner");
+                                self.line("ext_p(idv, owner)");
+                            }
+                            _ => {
+                                self.line("local fa, fb = ...");
+                                self.line("local cachev");
+                                self.line("ext_p(fa, fb, cachev)");
+                            }
+                        }
+                    }
+                    5 => {
+                        // several names of one declaration, not in alphabetical order, read by the next declaration
+                        self.line("local width = ext_n(1)");
+                        self.line("local height = 3");
+                        self.line("local doubled = width * 2");
+                        self.line("local tailv, countv = 0, 0");
+                        self.line("local getter = function() return countv + tailv + height end");
+                        self.line("ext_p(doubled, getter())");
+                    }
                     0 => {
                         // a method definition that lists `self` explicitly: two parameters named self
                         self.line("local acct = { handlers = {} }");
@@ -904,7 +941,27 @@ impl<'a> Gen<'a> {
                 }
             }
             30 | 31 if self.f.removal => {
-                match self.rng.below(12) {
+                match self.rng.below(15) {
+                    12 => {
+                        // `variable or call()` arguments: the call runs when the variable is falsy
+                        self.line("local cachedv = ext_b(0)");
+                        match self.rng.below(3) {
+                            0 => self.line("assert(cachedv or ext_n(1))"),
+                            1 => self.line("assert(ext_n(1), cachedv or ext_n(2), ext_n(3))"),
+                            _ => self.line("debug.profilebegin(cachedv or ext_n(4))"),
+                        }
+                    }
+                    13 => {
+                        // a removed call in expression position whose last preserved argument is false: the value
+                        // of the expression is nil, not false
+                        let r = self.fresh(Ty::Any);
+                        self.line(&format!("local {} = debug.profilebegin(ext_b(0))", r));
+                        self.line(&format!("ext_p({}, {} == nil, debug.profileend(ext_n(1), \"label\", ext_b(0)) == nil)", r, r));
+                    }
+                    14 => {
+                        // injected values of every JSON kind are read through every access path
+                        self.line("ext_p(DEBUG_LEVEL, _G.DEBUG_LEVEL, _G[\"DEBUG_LEVEL\"], DEBUG, _G.DEBUG)");
+                    }
                     8 => match self.rng.below(3) {
                         // table-call syntax: keys of [k] = v entries are evaluated too
                         0 => self.line("debug.profilebegin { [ext_n(1)] = ext_n(2) }"),
